@@ -33,7 +33,8 @@ Proof. intro H. destruct c; constructor; intros; apply H. Qed.
 (* ---- what the reading half of the decoder leaves alone ---- *)
 Definition same (s s' : lst) : Prop :=
   wposn s' = wposn s /\ fposn s' = fposn s /\ wsize s' = wsize s /\ offset s' = offset s /\ brem s' = brem s /\ btype s' = btype s /\
-  refsize s' = refsize s /\ frame s' = frame s /\ is_delta s' = is_delta s /\ reset_interval s' = reset_interval s /\ err s' = err s.
+  refsize s' = refsize s /\ frame s' = frame s /\ is_delta s' = is_delta s /\ reset_interval s' = reset_interval s /\ err s' = err s /\
+  optr s' = optr s /\ oend s' = oend s.
 Lemma same_refl s : same s s. Proof. repeat split. Qed.
 Lemma same_trans s1 s2 s3 : same s1 s2 -> same s2 s3 -> same s1 s3.
 Proof. unfold same. intros H1 H2. repeat match goal with H : _ /\ _ |- _ => destruct H end. repeat split; congruence. Qed.
@@ -48,7 +49,7 @@ Lemma K_Kp {A} (m : lm A) g s : K m -> same g s -> Kp g m s. Proof. intros H Hs.
 Lemma K_hs {A} (m : lm A) s : K m -> hs (fun _ s' => same s s') m s. Proof. intro H. apply H. apply same_refl. Qed.
 
 Lemma same_upd g s s' : same g s -> wposn s' = wposn s -> fposn s' = fposn s -> wsize s' = wsize s -> offset s' = offset s -> brem s' = brem s ->
-  btype s' = btype s -> refsize s' = refsize s -> frame s' = frame s -> is_delta s' = is_delta s -> reset_interval s' = reset_interval s -> err s' = err s -> same g s'.
+  btype s' = btype s -> refsize s' = refsize s -> frame s' = frame s -> is_delta s' = is_delta s -> reset_interval s' = reset_interval s -> err s' = err s -> optr s' = optr s -> oend s' = oend s -> same g s'.
 Proof. unfold same. intros H. intros. repeat match goal with H : _ /\ _ |- _ => destruct H end. repeat split; congruence. Qed.
 Ltac upd := match goal with H : same ?g ?s |- same ?g _ => apply (same_upd g s _ H); reflexivity end.
 
@@ -104,7 +105,8 @@ Lemma K_delta_extra_len : K delta_extra_len. Proof. unfold delta_extra_len. kk. 
 (* ---- the block header also sets block_type / block_remaining; it leaves the window geometry alone ---- *)
 Definition sameB (s s' : lst) : Prop :=
   wposn s' = wposn s /\ fposn s' = fposn s /\ wsize s' = wsize s /\ offset s' = offset s /\
-  refsize s' = refsize s /\ frame s' = frame s /\ is_delta s' = is_delta s /\ reset_interval s' = reset_interval s /\ err s' = err s.
+  refsize s' = refsize s /\ frame s' = frame s /\ is_delta s' = is_delta s /\ reset_interval s' = reset_interval s /\ err s' = err s /\
+  optr s' = optr s /\ oend s' = oend s.
 Lemma same_sameB s s' : same s s' -> sameB s s'.
 Proof. unfold same, sameB. intro H. repeat match goal with H : _ /\ _ |- _ => destruct H end. repeat split; assumption. Qed.
 Lemma sameB_refl s : sameB s s. Proof. repeat split. Qed.
@@ -120,7 +122,7 @@ Lemma K_KB {A} (m : lm A) : K m -> KB m.
 Proof. intros H g s Hs. eapply hs_weaken; [apply (H s s (same_refl s))|]. intros a s' H1. cbv beta in H1. apply (sameB_trans _ _ _ Hs). apply same_sameB. exact H1. Qed.
 Lemma KB_KpB {A} (m : lm A) g s : KB m -> sameB g s -> KpB g m s. Proof. intros H Hs. apply H. exact Hs. Qed.
 Lemma sameB_upd g s s' : sameB g s -> wposn s' = wposn s -> fposn s' = fposn s -> wsize s' = wsize s -> offset s' = offset s ->
-  refsize s' = refsize s -> frame s' = frame s -> is_delta s' = is_delta s -> reset_interval s' = reset_interval s -> err s' = err s -> sameB g s'.
+  refsize s' = refsize s -> frame s' = frame s -> is_delta s' = is_delta s -> reset_interval s' = reset_interval s -> err s' = err s -> optr s' = optr s -> oend s' = oend s -> sameB g s'.
 Proof. unfold sameB. intros H. intros. repeat match goal with H : _ /\ _ |- _ => destruct H end. repeat split; congruence. Qed.
 Ltac updB := match goal with H : sameB ?g ?s |- sameB ?g _ => apply (sameB_upd g s _ H); reflexivity end.
 Create HintDb kbdb.
@@ -153,7 +155,8 @@ Ltac bools := repeat match goal with
 
 Definition sameW (s s' : lst) : Prop :=
   fposn s' = fposn s /\ wsize s' = wsize s /\ offset s' = offset s /\ brem s' = brem s /\ btype s' = btype s /\
-  refsize s' = refsize s /\ frame s' = frame s /\ is_delta s' = is_delta s /\ reset_interval s' = reset_interval s /\ err s' = err s.
+  refsize s' = refsize s /\ frame s' = frame s /\ is_delta s' = is_delta s /\ reset_interval s' = reset_interval s /\ err s' = err s /\
+  optr s' = optr s /\ oend s' = oend s.
 
 Lemma decode_symbol_safe s : wposn s < wsize s ->
   hs (fun n s' => wposn s' = wposn s + n /\ wposn s' <= wsize s' /\ sameW s s') decode_symbol s.
@@ -196,7 +199,7 @@ Qed.
 
 Definition sameF (s s' : lst) : Prop :=
   fposn s' = fposn s /\ wsize s' = wsize s /\ offset s' = offset s /\ refsize s' = refsize s /\ frame s' = frame s /\
-  is_delta s' = is_delta s /\ reset_interval s' = reset_interval s /\ err s' = err s.
+  is_delta s' = is_delta s /\ reset_interval s' = reset_interval s /\ err s' = err s /\ optr s' = optr s /\ oend s' = oend s.
 Ltac unsameB := repeat match goal with H : sameB _ _ |- _ => unfold sameB in H; decompose [and] H; clear H end.
 Ltac unsameW := repeat match goal with H : sameW _ _ |- _ => unfold sameW in H; decompose [and] H; clear H end.
 Ltac unsameF := repeat match goal with H : sameF _ _ |- _ => unfold sameF in H; decompose [and] H; clear H end.
@@ -331,6 +334,224 @@ Proof.
   destruct (rest =? 0); cbn [negb]; [apply hs_ret; split; [exact I2|congruence]|apply hs_fail; discriminate].
 Qed.
 End NoHint.
+
+(* ---- the same for a known output length L (lzx->length = L from the start: CHM, OAB, LZX DELTA): the last frame is short ---- *)
+Section KnownHint.
+Variable L : N.
+Hypothesis HhL : forall h, Hh h -> h = L.
+
+Definition al (x : N) : Prop := exists c, x = 32768 * c.
+Definition Dd (s : lst) : N := offset s + (oend s - optr s).        (* bytes decoded so far: written + still waiting in the window *)
+Definition Geo (s : lst) : Prop := wposn s = fposn s /\ al (wsize s) /\ wsize s < 4294967296 /\ 32768 <= wsize s /\ optr s <= oend s.
+Definition NormalM (s : lst) : Prop := al (fposn s) /\ fposn s + 32768 <= wsize s /\ Dd s = frame s * 32768 /\ (L <> 0 -> Dd s <= L).
+Definition TailM (s : lst) : Prop := L <> 0 /\ Dd s = L /\ fposn s <= wsize s.
+Definition Core (s : lst) : Prop := Geo s /\ (NormalM s \/ TailM s).
+Definition LIp (s : lst) (ob ef : N) : Prop :=
+  Geo s /\ optr s = oend s /\ 1 <= ef /\ (ef - 1) * 32768 < offset s + ob /\ offset s + ob <= ef * 32768 /\ ef * 32768 < 140737488355328 /\ (NormalM s \/ TailM s).
+Definition PREp (s : lst) (ob ef : N) : Prop := (ef <= frame s /\ Core s) \/ LIp s ob ef.
+Definition fsz (off : N) : N := if negb (L =? 0) && (Z.of_N L - Z.of_N off <? 32768)%Z then u32 (Z.of_N L - Z.of_N off) else FRAME_SIZE.
+
+Lemma fs_facts s ob ef : LIp s ob ef -> frame s < ef ->
+  fsz (offset s) <= 32768 /\ fposn s + fsz (offset s) <= wsize s /\
+  ((NormalM s /\ fsz (offset s) = 32768 /\ (L <> 0 -> offset s + 32768 <= L)) \/
+   (NormalM s /\ L <> 0 /\ offset s <= L /\ fsz (offset s) = L - offset s /\ L - offset s < 32768) \/
+   (TailM s /\ fsz (offset s) = 0)).
+Proof.
+  intros (G & Ho & E1 & E2 & E3 & E4 & M) Hf. unfold fsz. change FRAME_SIZE with 32768.
+  assert (HD : Dd s = offset s) by (unfold Dd; lia).
+  destruct M as [(A1 & A2 & A3 & A4)|(T1 & T2 & T3)].
+  - rewrite HD in A3, A4. destruct (N.eqb_spec L 0) as [HL|HL]; cbn [negb andb].
+    + split; [lia|]. split; [lia|]. left. split; [unfold NormalM; rewrite HD; auto|]. split; [reflexivity|]. intro; contradiction.
+    + specialize (A4 HL). destruct (Z.ltb_spec (Z.of_N L - Z.of_N (offset s)) 32768) as [Hl|Hl].
+      * assert (Hu : u32 (Z.of_N L - Z.of_N (offset s)) = L - offset s).
+        { unfold u32. rewrite Z.mod_small by lia. lia. }
+        rewrite Hu. split; [lia|]. split; [lia|]. right. left. split; [unfold NormalM; rewrite HD; auto|]. repeat split; try lia; exact HL.
+      * split; [lia|]. split; [lia|]. left. split; [unfold NormalM; rewrite HD; auto|]. split; [reflexivity|]. intro. lia.
+  - rewrite HD in T2. destruct (N.eqb_spec L 0) as [HL|HL]; [contradiction|]. cbn [negb andb].
+    replace (Z.of_N L - Z.of_N (offset s))%Z with 0%Z by lia. cbn. split; [lia|]. split; [lia|]. right. right. split; [unfold TailM; rewrite HD; auto|reflexivity].
+Qed.
+
+Definition WRAP (x : lst) : lst :=
+  if fposn (if wposn x =? wsize x then x <| wposn := 0 |> else x) =? wsize (if wposn x =? wsize x then x <| wposn := 0 |> else x)
+  then (if wposn x =? wsize x then x <| wposn := 0 |> else x) <| fposn := 0 |>
+  else if wposn x =? wsize x then x <| wposn := 0 |> else x.
+Lemma wrap_fields x : wposn x = fposn x ->
+  wsize (WRAP x) = wsize x /\ offset (WRAP x) = offset x /\ frame (WRAP x) = frame x /\ optr (WRAP x) = optr x /\ oend (WRAP x) = oend x /\
+  err (WRAP x) = err x /\ wposn (WRAP x) = fposn (WRAP x) /\
+  ((fposn x = wsize x /\ fposn (WRAP x) = 0) \/ (fposn x <> wsize x /\ fposn (WRAP x) = fposn x)).
+Proof.
+  intro E. unfold WRAP. destruct (N.eqb_spec (wposn x) (wsize x)) as [Ew|Ew].
+  - replace (fposn (x <| wposn := 0 |>) =? wsize (x <| wposn := 0 |>)) with true.
+    2:{ symmetry. apply N.eqb_eq. change (fposn x = wsize x). congruence. }
+    repeat split; try reflexivity. left. split; [congruence|reflexivity].
+  - replace (fposn x =? wsize x) with false by (symmetry; apply N.eqb_neq; congruence).
+    repeat split; try reflexivity; try assumption. right. split; [congruence|reflexivity].
+Qed.
+
+Lemma PRE_step s ob ef x o0 : LIp s ob ef -> frame s < ef ->
+  wsize x = wsize s -> wposn x = fposn s + fsz (offset s) -> fposn x = fposn s + fsz (offset s) ->
+  offset x = offset s + N.min ob (fsz (offset s)) -> frame x = frame s + 1 ->
+  optr x = o0 + N.min ob (fsz (offset s)) -> oend x = o0 + fsz (offset s) ->
+  PREp (WRAP x) (ob - N.min ob (fsz (offset s))) ef /\ Dd (WRAP x) <= N.max (Dd s) (ef * 32768).
+Proof.
+  intros HL Hf X1 X2 X3 X4 X5 X6 X7.
+  destruct (fs_facts _ _ _ HL Hf) as (F1 & F2 & F3).
+  destruct (wrap_fields x ltac:(congruence)) as (W1 & W2 & W3 & W4 & W5 & W6 & W7 & W8).
+  destruct HL as (G & Ho & E1 & E2 & E3 & E4 & M). destruct G as (G1 & (cw & G2) & G3 & G4 & G5).
+  assert (HD : Dd s = offset s) by (unfold Dd; lia).
+  set (fs := fsz (offset s)) in *. set (i := N.min ob fs) in *.
+  assert (Hi : i <= fs) by (unfold i; lia). assert (Hi2 : i <= ob) by (unfold i; lia).
+  assert (DY : Dd (WRAP x) = offset s + fs) by (unfold Dd; rewrite W2, W4, W5, X4, X6, X7; lia).
+  assert (GY : Geo (WRAP x)).
+  { unfold Geo. rewrite W1, W4, W5, X1, X6, X7. split; [exact W7|]. split; [exists cw; exact G2|]. repeat split; lia. }
+  assert (FY : fposn (WRAP x) <= wsize s /\ (fposn (WRAP x) = 0 \/ fposn (WRAP x) = fposn s + fs)).
+  { destruct W8 as [[A B]|[A B]]; rewrite B; split; lia. }
+  unfold PREp, LIp, Core.
+  destruct F3 as [(N0 & Hfs & HLb)|[(N0 & HLn & Hle & Hfs & Hlt)|(T0 & Hfs)]].
+  - (* a full frame *)
+    destruct N0 as ((cf & A1) & A2 & A3 & A4). rewrite HD in A3, A4.
+    assert (NY : NormalM (WRAP x)).
+    { unfold NormalM. rewrite DY, W3, X5, W1, X1. destruct W8 as [[A B]|[A B]]; rewrite B.
+      - split; [exists 0; reflexivity|]. split; [lia|]. split; [lia|]. intro HLz. specialize (HLb HLz). lia.
+      - rewrite X3. split; [exists (cf + 1); lia|]. split; [rewrite X3, X1 in A; lia|]. split; [lia|]. intro HLz. specialize (HLb HLz). lia. }
+    split; [|rewrite DY; lia].
+    destruct (N.eq_dec i fs) as [Ei|Ei].
+    + right. rewrite W4, W5, X6, X7, W2, X4. split; [exact GY|]. split; [lia|]. repeat split; try lia. left. exact NY.
+    + left. rewrite W3, X5. split; [lia|]. split; [exact GY|]. left. exact NY.
+  - (* the short last frame *)
+    destruct N0 as ((cf & A1) & A2 & A3 & A4). rewrite HD in A3, A4.
+    assert (TY : TailM (WRAP x)).
+    { unfold TailM. rewrite DY. split; [exact HLn|]. split; [lia|]. rewrite W1, X1. exact (proj1 FY). }
+    split; [|rewrite DY; lia].
+    destruct (N.eq_dec i fs) as [Ei|Ei].
+    + right. rewrite W4, W5, X6, X7, W2, X4. split; [exact GY|]. split; [lia|]. repeat split; try lia. right. exact TY.
+    + left. rewrite W3, X5. split; [lia|]. split; [exact GY|]. right. exact TY.
+  - (* past the end *)
+    destruct T0 as (T1 & T2 & T3). rewrite HD in T2.
+    assert (TY : TailM (WRAP x)).
+    { unfold TailM. rewrite DY. split; [exact T1|]. split; [lia|]. rewrite W1, X1. exact (proj1 FY). }
+    split; [|rewrite DY; lia].
+    right. rewrite W4, W5, X6, X7, W2, X4. split; [exact GY|]. split; [lia|]. repeat split; try lia. right. exact TY.
+Qed.
+
+Lemma s32_u32_small x : x <= 32768 -> s32 (u32 (Z.of_N x)) = Z.of_N x.
+Proof.
+  intro H. unfold u32. rewrite Z.mod_small by lia. rewrite N2Z.id. unfold s32. change (M32 - 1) with (N.ones 32). rewrite N.land_ones.
+  rewrite N.mod_small by (change (2 ^ 32) with 4294967296; lia).
+  destruct (Z.ltb_spec (Z.of_N x) 2147483648); lia.
+Qed.
+Lemma u32_diff a b fs : a < 4294967296 -> b + fs < 4294967296 -> fs <= 32768 -> u32 (Z.of_N a - Z.of_N b) = fs -> a = b + fs.
+Proof.
+  intros Ha Hb Hf E. unfold u32 in E.
+  assert (Hd : ((Z.of_N a - Z.of_N b) mod 4294967296 = Z.of_N fs)%Z).
+  { pose proof (Z.mod_pos_bound (Z.of_N a - Z.of_N b) 4294967296 ltac:(lia)). lia. }
+  clear E. set (d := (Z.of_N a - Z.of_N b)%Z) in *. assert (-4294967296 < d < 4294967296)%Z by (unfold d; lia).
+  pose proof (Z.div_mod d 4294967296 ltac:(lia)) as Q. assert (d = Z.of_N fs \/ d = Z.of_N fs - 4294967296)%Z by nia. unfold d in *. lia.
+Qed.
+
+Lemma frame_loop_safeL : forall f ef ob s, PREp s ob ef ->
+  hs (fun _ s' => Core s' /\ err s' = err s /\ Dd s' <= N.max (Dd s) (ef * 32768)) (frame_loop f ef ob) s.
+Proof.
+  induction f as [|f IH]; intros ef ob s HP; cbn [frame_loop]; [apply hs_fail; discriminate|].
+  gt. destruct (ef <=? frame s) eqn:Ef.
+  { apply hs_ret. split; [|split; [reflexivity|lia]]. destruct HP as [[_ C]|(G & _ & _ & _ & _ & _ & M)]; [exact C|exact (conj G M)]. }
+  apply N.leb_gt in Ef. destruct HP as [[C _]|HL]; [lia|].
+  destruct (fs_facts _ _ _ HL Ef) as (F1 & F2 & _).
+  pose proof HL as (G & Ho & _). destruct G as (G1 & G2 & G3 & G4 & G5).
+  assert (H0 : sameB s s) by apply sameB_refl.
+  rdB. gt. rdB. gt. rdB.
+  apply hs_hint_bnd. intros len0 Hl0. apply HhL in Hl0. subst len0. rdB.
+  apply hs_hint_bnd. intros len1 Hl1. apply HhL in Hl1. subst len1. gt.
+  cbv zeta.
+  change (if negb (L =? 0) && (Z.of_N L - Z.of_N (offset s3) <? 32768)%Z then u32 (Z.of_N L - Z.of_N (offset s3)) else FRAME_SIZE) with (fsz (offset s3)).
+  assert (Eo : offset s3 = offset s) by (unsameB; congruence). rewrite Eo. set (fs := fsz (offset s)) in *.
+  replace (s32 (u32 (Z.of_N (fposn s3) + Z.of_N fs - Z.of_N (wposn s3)))) with (Z.of_N fs).
+  2:{ replace (Z.of_N (fposn s3) + Z.of_N fs - Z.of_N (wposn s3))%Z with (Z.of_N fs) by (unsameB; lia). symmetry. apply s32_u32_small. exact F1. }
+  eapply hs_bnd; [apply todo_loop_safe|].
+  { unsameB. lia. }
+  { intros _. unsameB. lia. }
+  intros u s4 (W4 & F4). cbv beta. gt.
+  destruct (u32 (Z.of_N (wposn s4) - Z.of_N (fposn s4)) =? fs) eqn:E1; cbn [negb]; [|apply hs_fail; discriminate].
+  assert (P4 : wposn s4 = fposn s + fs).
+  { apply N.eqb_eq in E1. unsameB. unsameF. replace (fposn s) with (fposn s4) by congruence. apply u32_diff; try assumption; lia. }
+  assert (G4' : sameB s4 s4) by apply sameB_refl.
+  rdB. gt. rdB. gt.
+  destruct (optr s6 =? oend s6); cbn [negb]; [|apply hs_fail; discriminate].
+  assert (C4 : ((FRAME_SIZE <? fs) || (wsize s6 <? fposn s6 + fs)) = false).
+  { change FRAME_SIZE with 32768. apply orb_false_iff. split; apply N.ltb_ge; [exact F1|]. unsameB. unsameF. lia. }
+  rewrite C4.
+  assert (Q : wsize s6 = wsize s /\ wposn s6 = fposn s + fs /\ fposn s6 = fposn s /\ offset s6 = offset s /\ frame s6 = frame s /\ err s6 = err s)
+    by (unsameB; unsameF; repeat split; congruence).
+  destruct Q as (Q1 & Q2 & Q3 & Q4 & Q5 & Q6).
+  clear Hs Hs0 Hs1 Hs2 Hs3 Hs4 F4 G4' H0 C4 E1 W4 P4 Eo.
+  (* the state after the output pointers are set: only its projections matter from here on *)
+  assert (TAIL : forall x0 o0, wsize x0 = wsize s6 -> wposn x0 = wposn s6 -> fposn x0 = fposn s6 -> offset x0 = offset s6 -> frame x0 = frame s6 -> err x0 = err s6 ->
+            optr x0 = o0 -> oend x0 = o0 + fs ->
+            hs (fun _ s' => Core s' /\ err s' = err s /\ Dd s' <= N.max (Dd s) (ef * 32768))
+               (s7 <- get ;; _ <- write (obytes s7 (N.min ob fs)) ;;
+                _ <- modify (fun s => s <| optr := optr s + N.min ob fs |> <| offset := offset s + N.min ob fs |> <| fposn := fposn s + fs |> <| frame := frame s + 1 |>) ;;
+                _ <- modify (fun s => let s' := if wposn s =? wsize s then s <| wposn := 0 |> else s in if fposn s' =? wsize s' then s' <| fposn := 0 |> else s') ;;
+                frame_loop f ef (ob - N.min ob fs)) x0).
+  { intros x0 o0 Y1 Y2 Y3 Y4 Y5 Y6 Y7 Y8. gt. apply hs_write_bnd. apply hs_modify_bnd. apply hs_modify_bnd.
+    set (X := x0 <| optr := optr x0 + N.min ob fs |> <| offset := offset x0 + N.min ob fs |> <| fposn := fposn x0 + fs |> <| frame := frame x0 + 1 |>).
+    change (hs (fun _ s' => Core s' /\ err s' = err s /\ Dd s' <= N.max (Dd s) (ef * 32768)) (frame_loop f ef (ob - N.min ob fs)) (WRAP X)).
+    assert (X1 : wsize X = wsize s) by (transitivity (wsize x0); [reflexivity|congruence]).
+    assert (X2 : wposn X = fposn s + fs) by (transitivity (wposn x0); [reflexivity|congruence]).
+    assert (X3 : fposn X = fposn s + fs) by (transitivity (fposn x0 + fs); [reflexivity|congruence]).
+    assert (X4 : offset X = offset s + N.min ob fs) by (transitivity (offset x0 + N.min ob fs); [reflexivity|congruence]).
+    assert (X5 : frame X = frame s + 1) by (transitivity (frame x0 + 1); [reflexivity|congruence]).
+    assert (X8 : err X = err s) by (transitivity (err x0); [reflexivity|congruence]).
+    assert (X6 : optr X = o0 + N.min ob fs) by (transitivity (optr x0 + N.min ob fs); [reflexivity|congruence]).
+    assert (X7 : oend X = o0 + fs) by (transitivity (oend x0); [reflexivity|congruence]).
+    clearbody X.
+    destruct (PRE_step s ob ef X o0 HL Ef X1 X2 X3 X4 X5 X6 X7) as [PP DB].
+    destruct (wrap_fields X ltac:(congruence)) as (_ & _ & _ & _ & _ & W6 & _).
+    eapply hs_weaken; [apply IH; exact PP|]. intros r s' (C1 & C2 & C3). cbv beta. split; [exact C1|]. split; [congruence|lia]. }
+  match goal with |- hs _ (bnd (if ?b then _ else _) _) _ => destruct b end; apply hs_put_bnd.
+  - apply (TAIL _ 0); reflexivity.
+  - apply (TAIL _ (fposn s6)); reflexivity.
+Qed.
+
+Lemma ef_facts T : 0 < T -> T < 70368744177664 ->
+  let ef := N.land ((T + FRAME_SIZE - 1) / FRAME_SIZE) (M32 - 1) in 1 <= ef /\ (ef - 1) * 32768 < T /\ T <= ef * 32768 /\ ef * 32768 < 140737488355328.
+Proof.
+  intros H0 H1. change FRAME_SIZE with 32768. change (M32 - 1) with (N.ones 32). cbv zeta. rewrite N.land_ones.
+  pose proof (N.div_mod (T + 32768 - 1) 32768 ltac:(discriminate)) as Q. pose proof (N.mod_lt (T + 32768 - 1) 32768 ltac:(discriminate)) as R.
+  set (q := (T + 32768 - 1) / 32768) in *. set (r := (T + 32768 - 1) mod 32768) in *.
+  assert (q < 2 ^ 32) by (change (2 ^ 32) with 4294967296; lia). rewrite N.mod_small by assumption. lia.
+Qed.
+
+Lemma decompress_safeL n s : Core s -> err s <> OOB -> Dd s + n < 70368744177664 ->
+  hs (fun _ s' => Core s' /\ err s' = err s /\ Dd s' <= Dd s + n + 32768) (decompress n) s.
+Proof.
+  intros HC He Hb. unfold decompress. gt.
+  destruct (err s =? 0) eqn:E0; cbn [negb]; [|apply hs_fail; exact He].
+  cbv zeta. set (i := N.min (oend s - optr s) n).
+  destruct HC as ((G1 & G2 & G3 & G4 & G5) & M).
+  set (s1 := if 0 <? i then s <| optr := optr s + i |> <| offset := offset s + i |> else s).
+  assert (S1 : wposn s1 = wposn s /\ fposn s1 = fposn s /\ wsize s1 = wsize s /\ frame s1 = frame s /\ err s1 = err s /\ optr s1 = optr s + i /\ offset s1 = offset s + i /\ oend s1 = oend s).
+  { unfold s1. destruct (0 <? i) eqn:Hi; [repeat split|]. apply N.ltb_ge in Hi. repeat split; lia. }
+  destruct S1 as (S1 & S2 & S3 & S4 & S5 & S6 & S7 & S8).
+  assert (Hi : i <= oend s - optr s) by (unfold i; lia). assert (Hi2 : i <= n) by (unfold i; lia).
+  assert (D1 : Dd s1 = Dd s) by (unfold Dd; rewrite S6, S7, S8; lia).
+  assert (C1 : Core s1).
+  { split; [unfold Geo; rewrite S1, S2, S3, S6, S8; repeat split; try assumption; lia|].
+    destruct M as [(A1 & A2 & A3 & A4)|(T1 & T2 & T3)]; [left; unfold NormalM|right; unfold TailM]; rewrite D1, S2, S3, ?S4; repeat split; assumption. }
+  eapply (hs_bnd (fun _ s' => s' = s1)).
+  { unfold s1. destruct (0 <? i); [apply hs_write_bnd; apply hs_modify; reflexivity|apply hs_ret; reflexivity]. }
+  intros u s1' ->. clearbody s1.
+  destruct (n - i =? 0) eqn:Eo; [apply hs_ret; split; [exact C1|]; split; [exact S5|lia]|].
+  apply N.eqb_neq in Eo. gt.
+  assert (Hav : optr s1 = oend s1) by (unfold i in *; lia).
+  assert (Do : Dd s1 = offset s1) by (unfold Dd; lia).
+  destruct (ef_facts (offset s1 + (n - i)) ltac:(lia) ltac:(lia)) as (F1 & F2 & F3 & F4).
+  set (ef := N.land ((offset s1 + (n - i) + FRAME_SIZE - 1) / FRAME_SIZE) (M32 - 1)) in *.
+  eapply hs_bnd; [apply (frame_loop_safeL 70000 ef (n - i) s1)|].
+  { right. destruct C1 as [GG MM]. unfold LIp. repeat split; try assumption; apply GG. }
+  intros rest s2 (C2 & E2 & B2). cbv beta.
+  destruct (rest =? 0); cbn [negb]; [|apply hs_fail; discriminate]. apply hs_ret. split; [exact C2|]. split; [congruence|lia].
+Qed.
+End KnownHint.
 End Safe.
 
 (* ---- the interpreter can only stop a decoder with its end-of-input status ---- *)
@@ -395,3 +616,58 @@ Proof.
 Qed.
 (* a state outside the invariant, for the non-vacuity example of the ghost checks *)
 Definition bad_state : lst := lzx_init 17 0 true [] <| wposn := 131072 |> <| fposn := 131072 |>.
+
+(* ---- a known output length ---- *)
+Definition sumN (l : list N) : N := fold_right N.add 0 l.
+Definition InvL (L : N) (s : lst) : Prop := Core L s /\ err s <> OOB.
+Theorem lzx_call_safeL L s i n st s' i' : InvL L s -> Dd s + n < 70368744177664 -> lzx_call L s i n = (st, s', i') ->
+  st <> OOB /\ InvL L s' /\ Dd s' <= Dd s + n + 32768.
+Proof.
+  intros [HC He] Hb H. unfold lzx_call in H.
+  destruct (ideal EofPad2 L (decompress n s) i) as [r i1] eqn:E.
+  pose proof (decompress_safeL (fun h => h = L) L (fun h Hh => Hh) n s HC He Hb) as SAFE.
+  assert (DE : forall e, Dd (s <| err := e |>) = Dd s) by (intro; reflexivity).
+  destruct r as [[e|[[] s1]]|e].
+  - pose proof (leaves_run _ _ EofPad2 L _ eq_refl SAFE _ _ _ E) as LL. cbn in LL.
+    inversion H; subst. split; [exact LL|]. split; [split; [exact HC|exact LL]|]. rewrite DE. lia.
+  - pose proof (leaves_run _ _ EofPad2 L _ eq_refl SAFE _ _ _ E) as LL. cbn in LL.
+    inversion H; subst. destruct LL as (L1 & L2 & L3). split; [discriminate|]. split; [split; [exact L1|congruence]|exact L3].
+  - apply ideal_stop in E. subst e. inversion H; subst. split; [discriminate|]. split; [split; [exact HC|discriminate]|]. rewrite DE. lia.
+Qed.
+
+Lemma lzx_calls_safeL L : forall reqs s i acc sts i', InvL L s -> Forall (fun st => st <> OOB) acc ->
+  Dd s + sumN reqs + 32768 * N.of_nat (length reqs) < 70368744177664 ->
+  lzx_calls L reqs s i acc = (sts, i') -> Forall (fun st => st <> OOB) sts.
+Proof.
+  induction reqs as [|n reqs IH]; intros s i acc sts i' HI Ha Hb H; cbn [lzx_calls] in H.
+  - inversion H; subst. rewrite rev_append_rev, app_nil_r. apply Forall_rev. exact Ha.
+  - cbn [sumN fold_right length] in Hb. fold (sumN reqs) in Hb. rewrite Nat2N.inj_succ in Hb.
+    destruct (lzx_call L s i n) as [[st s1] i1] eqn:E.
+    assert (Hb1 : Dd s + n < 70368744177664) by lia.
+    destruct (lzx_call_safeL _ _ _ _ _ _ _ HI Hb1 E) as (N1 & I1 & B1).
+    assert (Hb2 : Dd s1 + sumN reqs + 32768 * N.of_nat (length reqs) < 70368744177664) by lia.
+    apply (IH _ _ _ _ _ I1 (Forall_cons (P := fun st => st <> OOB) st N1 Ha) Hb2 H).
+Qed.
+
+Lemma init_invL L wb ri delta ref : 15 <= wb <= 25 -> InvL L (lzx_init wb ri delta ref) /\ Dd (lzx_init wb ri delta ref) = 0.
+Proof.
+  intro Hw. split; [|reflexivity]. split; [|discriminate]. unfold Core, Geo, NormalM, Dd.
+  change (wposn (lzx_init wb ri delta ref)) with 0. change (fposn (lzx_init wb ri delta ref)) with 0. change (wsize (lzx_init wb ri delta ref)) with (N.shiftl 1 wb).
+  change (optr (lzx_init wb ri delta ref)) with 0. change (oend (lzx_init wb ri delta ref)) with 0. change (offset (lzx_init wb ri delta ref)) with 0. change (frame (lzx_init wb ri delta ref)) with 0.
+  rewrite shiftl_mult by lia. assert (1 <= 2 ^ (wb - 15)) by (apply N.lt_pred_le; cbn; apply N.neq_0_lt_0, N.pow_nonzero; discriminate).
+  assert (2 ^ (wb - 15) <= 2 ^ 10) by (apply N.pow_le_mono_r; lia). change (2 ^ 10) with 1024 in *.
+  split; [split; [reflexivity|]; split; [exists (2 ^ (wb - 15)); lia|]; repeat split; lia|].
+  left. split; [exists 0; reflexivity|]. repeat split; try lia.
+Qed.
+
+(* every call of every sequence, every input, every legal window size, ANY output length known to the decoder from the start (0 = unknown) *)
+Theorem lzx_run_safeL wb ri L delta ref inp reqs sts out : 15 <= wb <= 25 ->
+  sumN reqs + 32768 * N.of_nat (length reqs) < 70368744177664 ->
+  lzx_run wb ri L delta ref inp reqs = (sts, out) -> Forall (fun st => st <> OOB) sts.
+Proof.
+  intros Hw Hb H. unfold lzx_run in H.
+  destruct (lzx_calls L reqs (lzx_init wb ri delta ref) {| irest := inp ++ pad EofPad2; iout := [] |} []) as [sts0 i'] eqn:E.
+  inversion H; subst. destruct (init_invL L wb ri delta ref Hw) as [I0 D0].
+  assert (Hb0 : Dd (lzx_init wb ri delta ref) + sumN reqs + 32768 * N.of_nat (length reqs) < 70368744177664) by (rewrite D0; lia).
+  apply (lzx_calls_safeL L _ _ _ _ _ _ I0 (Forall_nil _) Hb0 E).
+Qed.
